@@ -117,3 +117,68 @@ check("C06",
       "the rest; copy.copy is not a copy route; join is covered by C12 (inputs untouched)",
       "TLA+ spec (MolHeap) model-checked with TLC; spec->code replay with counters stored in the real cells + deep snapshots",
       "DESIGN.md 4/C06", modules=("MolHeap", "MCMolHeap"))
+
+check("C13",
+      "TLC exhausts the Cdxml reference model of the parser (node/bond tables, nested-fragment expansion, label cache) over "
+      "17 (quick) / 228 (thorough) small drawings x all look-up histories of length <= 3 incl. re-opened objects, for "
+      "AtomsAsDrawn, AttachmentPointsWhereDrawn, BondsAsDrawn, ChargeMultFollow, ResolvesAsDrawn/Stably, Deterministic, "
+      "MirrorKeepsConstitution, MirrorFlipsHandedness; 10 named deviations each violate their clause.  Then every labelled "
+      "fragment of every bundled CDXML file and of 4 (quick) / 31 (thorough) seeded variants per file (stereo marks mirrored, "
+      "page translated, page children permuted, ids renumbered incl. into the range of displayed atom numbers, atom records "
+      "reordered, compositions and their mirrors) is parsed by the real CDXMLFile through two objects and three look-up "
+      "orders; an independent ElementTree walk supplies the abstract drawing; TLC validates each file as a trace (keys, "
+      "every look-up, every repeat, every base/variant relation with signed-volume handedness tokens) against the Cdxml clauses.",
+      "handedness enters only as signed-volume tokens (1e-3 A^3, threshold 50) whose inversion/preservation the spec demands; "
+      "label->fragment accepts group sibling or nearest-above (L1/L2); the atom correspondence is a harness-found witness "
+      "verified by the spec; Dash bonds, hapto bonds and atoms bonded to hapto centres are unconstrained; trusted: TLC, Json "
+      "module, ElementTree, networkx (witness search)",
+      "TLA+ spec (Cdxml) model-checked with TLC incl. deviations; batched TLC trace validation (CdxmlTrace) of real parses of "
+      "bundled files and generated variants",
+      "DESIGN.md 4/C13", modules=("Cdxml", "MCCdxml", "CdxmlTrace"))
+
+check("C16",
+      "TLC checks HAdd.tla over the whole case table (7 centres B,C,N,O,Si,P,S x charge -1..1 x spin x every multiset of 0-3 "
+      "single/double/triple/aromatic bonds x hint none/0..3 x neighbour palettes x orientations incl. exactly axis-aligned) "
+      "for OnlyHydrogensAdded, CountRule, BondedOnceToCentre, PlacedRight, Idempotent, ValenceComplete; 12 named deviations "
+      "each violate their clause.  Every row of the TLC-emitted table is executed on a real Molecule (first and second call) "
+      "and must equal the edge (count, atoms/bonds prefix, coordinate/charge tokens, placement classes).  The same executions "
+      "plus 300/3000 seeded random 3-D molecules (Molecule and Structure, rings, radicals, ions, isolated atoms, axis-aligned "
+      "bonds) and all 239 bundled CDXML fragments are validated by TLC as traces of HAdd (full micro-Angstrom coordinates and "
+      "1e-3 e charges before/after, measured distance/cos/finiteness of every new atom).",
+      "case table exhaustive within the stated bounds, random part sampled; placement clauses judged by TLC on integers "
+      "measured by the harness (tolerances 0.003 A, cos <= -0.03, degenerate below 0.1 A offset -> only 'not towards'); "
+      "hapto-bonded centres out of the direction clause; hinted rows limited to neighbours+hint <= 4; order of new atoms/bonds "
+      "and orientation left free",
+      "TLA+ case-table spec model-checked with TLC; spec->code replay of every emitted row; batched TLC trace validation of real calls",
+      "DESIGN.md 4/C16", modules=("HAdd", "MCHAdd", "HAddTrace"))
+
+check("C01",
+      "TLC exhausts LibCodec (reference codec of both schema versions over the MolModel value domain; library = map key -> "
+      "positional record; codec chosen by the file's magic; writer + second read-only object; pre-existing legacy records) for "
+      "RoundTrip, V1DomainClosed, PutAccepted, CodecByMagic, StoredInSchema over pools of abstract objects it enumerates itself "
+      "(every enum member, element classes, None/empty labels, attribute classes, 0-3 atoms, bond-end orders, repeated bonds, "
+      "0-3 conformers, special floats).  The enumerated Put arguments are built as real objects and stored and re-read in real "
+      ".mlib/.clib files (v2 and legacy magic, incl. records placed by an independent legacy encoder and genuine bundled legacy "
+      "records).  Those sessions plus seeded generated objects are abstracted into traces that TLC validates against "
+      "LibCodecTrace - the verdict 'reads back as the same object' is MolModel!Same evaluated by TLC.",
+      "bounded pools plus seeded generation; value equality per DESIGN 3.3; float32 tolerance only for coordinates, charges and "
+      "weights, f_order and attribute floats exact; trusted: TLC, the abstraction function, the independent v1 codec (verified "
+      "byte-for-byte against bundled files), msgpack; record byte layout free",
+      "TLA+ specs (MolModel, LibCodec) model-checked with TLC incl. 10 deviations; TLC-enumerated inputs replayed into the code; "
+      "batched TLC trace validation of real library sessions",
+      "DESIGN.md 4/C01", modules=("MolModel", "LibCodec", "MCLibCodec", "MCLibCodecQ", "MCLibCodecT", "LibCodecTrace"))
+
+check("C12",
+      "TLC exhausts Join.tla: an implementation-shaped lattice reference model of Structure.join (3-5 fragments x 6-24 poses x "
+      "every degree-1 atom as attachment point x 3-5 option records incl. overrides of 0, each call made twice across a "
+      "hidden-state change) and of molli combine's iterated join (every order of 1-3 attachment indices) against "
+      "ProductConstitution, ChargeMultRule, KeepsShape, NotMirrored, BondLength, Direction, BackAligned, Functional, "
+      "InputsUntouched, IndexShiftCorrect.  The enumerated joins and assemblies are executed on real Structure/Molecule objects "
+      "and compared with the TLC-computed product.  Every execution - enumerated, random 3-D tree/ring fragments in general, "
+      "aligned, opposite and near-opposite poses, real combine._ml_assemble runs - is validated by TLC against the contract (JoinTrace).",
+      "geometry enters as integers computed by the harness (micro-Angstrom distances, orientation signs of atom quadruples; "
+      "tolerance 5 uA; quadruples with |volume| < 0.01 A^3 unconstrained); torsion about the new bond is free; atom order of the "
+      "product and B's back-alignment are read as part of 'the intended molecule'; the molli combine CLI itself is not run "
+      "(openbabel stubbed for the import)",
+      "TLA+ spec model-checked with TLC; spec->code execution of enumerated cases; batched TLC trace validation of real calls",
+      "DESIGN.md 4/C12", modules=("Join", "MCJoin", "JoinTrace"))
